@@ -4,7 +4,7 @@ import json
 import os
 
 ROOT = "/verif"
-HOOK_COMMITS = ["9464261", "db74668", "82c77a2", "4c6d354", "d980f79", "b9c8edd"]
+HOOK_COMMITS = ["9464261", "db74668", "82c77a2", "4c6d354", "d980f79", "b9c8edd", "6f90701"]
 
 TB = ("Trusted: Coq 8.16.1 kernel (+vm_compute for evaluating the model on correspondence cases; no native_compute); "
       "the hand-written Gallina model, tied to /repo only by this check's correspondence run against the binary built from /repo's working tree with --cfg vicut_verif; "
@@ -111,6 +111,12 @@ CLAIMED = {
         note=TB + "Which range a motion selects belongs to C02; block registers are exercised by C01/C02 only.",
         technique="Coq proof (list-splitting lemmas over cluster lists) + trace-based oracles and primitive replay",
         design="§9 C08"),
+    "C09": dict(
+        text="Theorems (every cluster list, every cursor a command may leave): the end of exec_cmd puts the cursor inside the text for its mode and, in normal mode, never on the terminator of a non-empty line, and is idempotent; line numbers by newline characters and by newline clusters agree for all texts without \\r\\n (refuted with a CRLF witness: known finding); the reported byte offset is the start of the cluster under the cursor; slices through a fresh cache are cluster aligned. "
+             "That every verb re-establishes the rest of the invariant is checked, not proved: random histories (up to 14/40 keys, all modes, modes left open, undo/redo/dot/ex/search) and a fixed regression corpus, with the full state dumped after every key string and the invariant evaluated (cursor.max, fresh cache, bounds per mode, terminator rule, selection inside text and around the cursor); thorough adds the exhaustive depth-3 histories over 20 commands x 5 buffers; vic built-ins line/col/pos/buf_len/char checked against the printed text.",
+        note=TB + "Per-verb preservation of the invariant needs the editor-core model (partial).",
+        technique="Coq proof (epilogue clamp lemmas, line-count agreement) + invariant evaluation on dumped states",
+        design="§9 C09"),
 }
 
 NOT_YET = {}
